@@ -85,6 +85,15 @@ def position_value(v, i):
 
 
 def check_function(ck, label, f, P, is_program=False, variant=None):
+    from gsv import colsym
+    colsym.ARRAY_TRUTH_IS_ERROR[0] = True
+    try:
+        return _check_function(ck, label, f, P, is_program, variant)
+    finally:
+        colsym.ARRAY_TRUTH_IS_ERROR[0] = False
+
+
+def _check_function(ck, label, f, P, is_program=False, variant=None):
     """returns one of: 'equiv', 'loud-rewrite', 'loud-call', 'finding', 'not-encoded'"""
     from _gettsim.vectorization import TranslateToVectorizableError
     name = f.__name__
